@@ -20,9 +20,9 @@ TRUSTED_BASE = ["Spec/GffLayout.lean: the independent GFF3 writer, `denote` and 
 ASSUMPTIONS = [
     "sequence letters are ASCII (Go slices bytes, model and spec index characters); field text may be any valid UTF-8",
     "coordinates and region bounds lie in the int64 range and Start+1 does not overflow",
-    "NARROWING of 'seqids free of white space': a seqid (for an empty seqid: Locus.Name) must not begin with '#'. GFF3 requires '#' "
-    "(and '>') in column 1 to be percent-escaped, and since fix fdf6b17 a line beginning with '#' is a comment for gff.Parse, so "
-    "Build's unescaped line '#x<TAB>...' is skipped: 1 feature in, 0 out (probe in the generator, judged skip)",
+    "for text laid out by the independent WRITER a line beginning with '#' is a comment by GFF3's own rule, so a feature line of a "
+    "document does not begin with '#' (wfFeatLine); for records given to Build see the known finding in PARTIAL",
+    "a case outside the quantifier is not judged, EXCEPT that a timeout / crash / panic where the model predicts a normal return is a FAIL",
     "NARROWING: Meta.GffVersion free of blank and newline is a hypothesis of parse_build only; the judge still judges records whose "
     "version holds a blank (the version is not a judged field)",
     "NARROWING: the region name (Meta.Name, or the fallback Build writes for an empty name) is free of blanks — it is a seqid",
@@ -34,6 +34,10 @@ ASSUMPTIONS = [
     "a directive placed before ##sequence-region by the independent writer does not itself begin with '##sequence-region'",
 ]
 PARTIAL = [
+    "KNOWN FINDING C14-hash-seqid (provisional): the quantifier says 'seqids free of white space'; a seqid that begins with '#' (or, for an "
+    "empty seqid, a Locus.Name that does) is inside it, but gff.Build writes it unescaped and gff.Parse skips the line as a comment "
+    "(since fdf6b17 for '#…', before only for '##…'): 1 feature in, 0 out. parse_build / coords_build are proved under wfBuild, which "
+    "excludes exactly this class; hash_seqid_witness is the kernel-checked counterexample over wfBuildQ; such cases are judged (kf class)",
     "'preserves region name and bounds, seqid, source, type' is proved and judged for values that are SET; an empty Meta.Name / "
     "RegionStart 0 / RegionEnd 0 / empty seqid, source, type come back as the defaults gff.Build wrote (Locus.Name or Accession or "
     "'unknown'; 1; digits of Locus.SequenceLength or 1; Locus.Name; 'feature'; 'unknown') — parse_build states the exact result "
@@ -57,7 +61,10 @@ def text(r, lo=0, hi=12, alphabet=TEXT):
 
 
 def ident(r, lo=1, hi=10):
-    return randword(r, IDCH, r.randint(lo, hi))
+    s = randword(r, IDCH, r.randint(lo, hi))
+    if r.random() < 0.04:          # white-space free, but with a character that means something elsewhere in the file
+        s = r.choice([">", ">", "%", ",", "=", ";", "."]) + s
+    return s
 
 
 def attrs(r, n=None):
@@ -134,14 +141,17 @@ def widths_text(r, n):
     return ",".join(items)
 
 
-SKIPS = ["", "", "# comment", "#", "#!processor poly", "# a\tb", "##species https://x/y?id=9", "##feature-ontology so.obo", "###", "###",
+SKIPS = ["##sequence-region other 5 9", "##sequence-region", "", "", "# comment", "#", "#!processor poly", "# a\tb", "##species https://x/y?id=9", "##feature-ontology so.obo", "###", "###",
          "##FASTA ", "##", "#\u00e9t\u00e9 \u03b2"]
 
 
-def skip_group(r, p=0.35):
+def skip_group(r, p=0.35, region=None):
     if r.random() > p:
         return []
-    return [r.choice(SKIPS) for _ in range(r.choice([1, 1, 2, 3]))]
+    g = [r.choice(SKIPS) for _ in range(r.choice([1, 1, 2, 3]))]
+    if region is not None and r.random() < 0.15:      # a later ##sequence-region line for the same name, other bounds: the first one counts
+        g.append("##sequence-region %s %d %d" % (region, r.randint(2, 99), r.randint(100, 10 ** 6)))
+    return g
 
 
 def groups(c, gs):
@@ -163,16 +173,16 @@ def layout_case(r, n, nfeat=None, finding=None, plain_skips=False):
     c = ["layout", r.choice(["3", "3.1.26", "3.2.1", "2"]), region, str(rfirst), str(rlast),
          r.choice([region, region + " " + text(r, 0, 20), ""]), seq, str(nfeat)]
     for _ in range(nfeat):
-        f = feature(r, n, seqid=region, empties=False)
+        f = feature(r, n, seqid=region, empties=r.random() < 0.1)      # empty columns reach Parse only through a writer
         # file coordinates are 1-based inclusive: [a, b) -> a+1 .. b
         f[3] = str(int(f[3]) + 1)
         c += f
     p = 0.0 if plain_skips else 0.35
-    groups(c, [skip_group(r, p) for _ in range(nfeat)])
-    after = r.choice([["###"], ["###"], [], ["# end of features", ""], ["", "###", "#"]])
+    groups(c, [skip_group(r, p, region) for _ in range(nfeat)])
+    after = r.choice([["###"], ["###"], [], ["# end of features", ""], ["", "###", "#"], ["##sequence-region %s 3 4" % region, "###"]])
     c.append(str(len(after)))
     c += after
-    groups(c, [skip_group(r, 0.1) for _ in range(r.choice([0, 0, 0, 3, 8]))])
+    groups(c, [skip_group(r, 0.1, region) for _ in range(r.choice([0, 0, 0, 3, 8]))])
     c.append(widths_text(r, n))
     c.append(r.choice(["true", "true", "false"]))
     pre = [r.choice(["##species x", "##feature-ontology so.obo", "##genome-build NCBI B36 more words here", "#!processor poly", ""])
@@ -247,13 +257,18 @@ def cases(seed, tier):
     for fnd in ["semi", "crlf", "pre"]:
         for _ in range(3):
             yield layout_case(r, r.randint(1, 200), nfeat=r.randint(1, 3), finding=fnd)
-    # out-of-domain probes (not judged; model drift is reported only as information)
     base = ["build", "chr1", "3", "1", "10", "", "", "", "ACGTACGTAC"]
+    # known finding C14-hash-seqid: a seqid (or, for an empty seqid, Locus.Name) that begins with '#'
+    yield base + ["1", "##x", "poly", "gene", "0", "4", ".", "+", ".", "1", "ID", "a"]
+    yield base + ["2", "chr1", "poly", "gene", "0", "4", ".", "+", ".", "1", "ID", "a", "#x", "poly", "gene", "2", "9", ".", "-", ".", "1", "ID", "b"]
+    yield ["build", "chr1", "3", "1", "10", "#locus", "", "", "ACGTACGTAC", "1", "", "poly", "gene", "0", "4", ".", "+", ".", "1", "ID", "a"]
+    # seqids that begin with '>' (in domain: before ##FASTA such a line is a feature line)
+    yield base + ["2", ">x", "poly", "gene", "0", "4", ".", "+", ".", "1", "ID", "a", ">", "poly", "CDS", "9", "10", ".", "-", "0", "1", "ID", "b"]
+    yield ["build", ">chr1", "3", "1", "10", "", "", "", "ACGTACGTAC", "1", ">chr1", "poly", "gene", "0", "10", ".", "+", ".", "1", "ID", "a"]
+    # out-of-domain probes (not judged unless the call hangs or panics where the model predicts a return)
     yield base + ["1", "chr1", "poly", "gene", "0", "4", ".", "+", ".", "0"]                       # no attributes
     yield base + ["1", "chr1", "poly", "gene", "0", "4", ".", "+", ".", "1", "ID", "a=b"]          # '=' in a value
     yield base + ["1", "chr1", "poly", "gene", "0", "4", ".", "+", ".", "1", "ID", "a;b"]          # ';' in a value
-    yield base + ["1", "##x", "poly", "gene", "0", "4", ".", "+", ".", "1", "ID", "a"]             # seqid looks like a directive
-    yield base + ["1", "#x", "poly", "gene", "0", "4", ".", "+", ".", "1", "ID", "a"]              # seqid looks like a comment
     yield base + ["1", "chr1", "po\tly", "gene", "0", "4", ".", "+", ".", "1", "ID", "a"]          # tab in a column
     yield ["build", "chr 1", "3", "1", "10", "", "", "", "ACGTACGTAC", "0"]                        # blank in the region name
     yield ["build", "chr1", "3", "1", "10", "", "", "", ">CGT#CGTAC", "0"]                         # '>' in the sequence
